@@ -107,6 +107,9 @@ def gen_case(rng):
         idx = ""
         if rng.random() < 0.35:
             idx = str(rng.randint(0, max(0, nargs) + (1 if rng.random() < 0.15 else 0)))
+            if rng.random() < 0.04:
+                # numerals at the edges of the machine integer types: still only "index exceeds the count"
+                idx = rng.choice(["18446744073709551615", "18446744073709551614", "9223372036854775807", "9223372036854775808", "4294967295", "4294967296", "65536", "256"])
         spec = idx
         if rng.random() < 0.6:
             spec += ":"
